@@ -36,6 +36,19 @@ def label_patterns(n, rng, how_many):
     return pats
 
 
+def name_like_inner(td):
+    """the str data of some node that has children (a tree NAME equal to it makes that node `==` the system root)"""
+    out = []
+
+    def walk(ns):
+        for lbl, _k, _d, kids in ns:
+            if kids and td["univ"][lbl].startswith("s:"):
+                out.append(td["univ"][lbl][2:])
+            walk(kids)
+    walk(td["nodes"])
+    return out[-1] if out else None
+
+
 def valid_desc(td) -> bool:
     """the description builds (no two siblings with one data_id)"""
     try:
@@ -100,6 +113,51 @@ def retarget_descs(tier, rng):
                 if valid_desc(td):
                     yield td
                     break
+
+
+EQ_UNIV = ["s:Projects", "s:a", "e:1", "s:E1", "q:Projects", "s:b", "q:E1"]
+
+
+def equal_descs(tier, rng):
+    """equal-but-distinct objects where the library means identity: the TREE NAME (= data of the invisible system root)
+    equals the data of a node that has children (a str, or an object that merely compares equal to it), at depth 0, 1
+    and 2; a node's data equals another node's name/repr ("E1" vs the object E1)"""
+    shapes = [sh for n in range(2, 5 if tier == "quick" else 6) for sh in H.forests(n) if H.shape_depth(sh) >= 2]
+    for j, shape in enumerate(shapes):
+        n = H.shape_size(shape)
+        for rep in range(1 if tier == "quick" else 2):
+            typed = (j + rep) % 2 == 1
+            perm = rng.sample(range(len(EQ_UNIV)), min(n, len(EQ_UNIV))) + [rng.randrange(len(EQ_UNIV)) for _ in range(max(0, n - len(EQ_UNIV)))]
+            nodes = B.shape_to_nodes(shape, lambda i, d, s: (perm[i], KINDS[rng.randrange(2)] if typed else None, None))
+            # pre-order indices of the nodes that have children, with their label
+            inner = []
+
+            def walk(ns):
+                for lbl, _k, _d, kids in ns:
+                    if kids:
+                        inner.append(lbl)
+                    walk(kids)
+            walk(nodes)
+            names = [EQ_UNIV[l].partition(":")[2] for l in inner if EQ_UNIV[l][0] in "sq"]
+            if not names:
+                # make the first inner node the one that is equal to the name
+                names = ["Projects"]
+                nodes2 = json.loads(json.dumps(nodes))
+
+                def patch(ns):
+                    for x in ns:
+                        if x[3]:
+                            x[0] = 0 if rng.random() < 0.5 else 4
+                            return True
+                        if patch(x[3]):
+                            return True
+                    return False
+                patch(nodes2)
+                nodes = nodes2
+            td = dict(typed=typed, univ=EQ_UNIV, nodes=nodes, name=rng.choice(names), calc=None, mapper=rng.choice(["cb", "derived"]),
+                      km=KMS[j % 3], vm=["true", "false", "custom"][(j // 2) % 3], meta=None)
+            if valid_desc(td):
+                yield td
 
 
 def falsy_descs():
@@ -174,6 +232,9 @@ class Prop:
                         lab[i] % len(univ), KINDS[rng.randrange(kk)] if typed else None,
                         (rng.choice(["x", "y", 7, 0, ""]) if rng.random() < 0.5 else None) if explicit else None))
                     td = dict(typed=typed, univ=univ, nodes=nodes, calc=rng.choice([None, None, None, "name"]))
+                    nm = name_like_inner(td)
+                    if nm is not None and rng.random() < 0.4:
+                        td["name"] = nm
                     if valid_desc(td):
                         yield td
         nrand = 90 if tier == "quick" else 400
@@ -187,6 +248,9 @@ class Prop:
             nodes = B.shape_to_nodes(shape, lambda i, d, s: (rng.randrange(k) % len(univ), KINDS[rng.randrange(kk)] if typed else None,
                                                              rng.choice([None, None, None, "x", 5])))
             td = dict(typed=typed, univ=univ, nodes=nodes, calc=rng.choice([None, None, "name"]))
+            nm = name_like_inner(td)
+            if nm is not None and rng.random() < 0.4:
+                td["name"] = nm
             if valid_desc(td):
                 yield td
 
@@ -201,7 +265,7 @@ class Prop:
         for fd in falsy_descs():
             yield dict(fd, kind="save")
             yield dict(fd, kind="load", shuffle=False)
-        for fd in list(dw_descs(tier, rng)) + list(retarget_descs(tier, rng)):
+        for fd in list(dw_descs(tier, rng)) + list(retarget_descs(tier, rng)) + list(equal_descs(tier, rng)):
             yield dict(fd, kind="save")
             yield dict(fd, kind="load", shuffle=False)
         for td in self.tree_descs(tier, rng):
@@ -518,6 +582,9 @@ CORPUS = [
     # outside the domain (clones_consistent): one explicit data_id on two different data objects -- 'b' must load as 'a', exactly
     dict(kind="load", typed=False, univ=["s:a", "s:x", "s:b"], nodes=[[0, None, 1, []], [1, None, None, [[2, None, 1, []]]]], km="true", vm="true", mapper="cb"),
     dict(kind="save", typed=False, univ=["s:a", "s:x", "s:b"], nodes=[[0, None, 1, []], [1, None, None, [[2, None, 1, []]]]], km="true", vm="true", mapper="cb"),
+    # tree name equal to the data of a node with children (Node.__eq__ compares data; the root's data is the tree name)
+    dict(kind="save", typed=False, univ=["s:Projects", "s:alpha", "s:beta"], nodes=[[0, None, None, [[1, None, None, [[2, None, None, []]]]]]], name="Projects", km="true", vm="true", mapper="none"),
+    dict(kind="save", typed=True, univ=["s:top", "q:Projects", "s:beta"], nodes=[[0, "a", None, [[1, "a", None, [[2, "b", None, []]]]]]], name="Projects", km="true", vm="true", mapper="cb"),
     # D40 (known): identity-hashed data, clone of another kind
     dict(kind="load", typed=True, univ=["p:1", "s:y"], nodes=[[0, "a", None, []], [1, "a", None, [[0, "b", None, []]]]], km="true", vm="true", mapper="cb"),
 ]
